@@ -585,7 +585,7 @@ func crashEnumerate(c *rig.Ctx, cfg crashCfg) {
 			steps = 5 + r.Intn(6)
 		}
 		seed := r.Int63()
-		work := c.TempDir(pfx+"h")
+		work := c.TempDir(pfx + "h")
 		dbdir := filepath.Join(work, "db")
 		rig.Must(os.MkdirAll(dbdir, 0o755))
 		marker := filepath.Join(work, "markers")
